@@ -712,7 +712,8 @@ class CallMixin:
                 return it if it.eshape == ("char",) else VJoined(it)
             if s == "" and is_str(it):
                 return it  # "".join(t) for a str t: iterating t yields its characters in order, whose concatenation is t
-            raise Unsupported("join over a symbolic iterable")
+            if self.externals.get("str.join") is None:  # (else: the sidecar's assumed contract of str.join, below)
+                raise Unsupported("join over a symbolic iterable")
         ext = self.externals.get("str." + name)
         if ext is not None:
             # a str method given by an assumed contract of the sidecar (trusted base, listed like any other external)
